@@ -23,6 +23,7 @@ type RunConfig struct {
 	PortfolioS int
 	Verbose    bool
 	Pool       chan *solver.Proc
+	SolverKind string
 }
 
 // Run explores all paths of harness function fn.
@@ -43,7 +44,11 @@ func Run(p *Program, fn *ssa.Function, prop string, cfg RunConfig) *Explorer {
 				sv.TimeoutMs = cfg.SolverMs
 			default:
 				var err error
-				sv, err = solver.Start("z3", cfg.SolverMs)
+				kind := cfg.SolverKind
+				if kind == "" {
+					kind = "z3"
+				}
+				sv, err = solver.Start(kind, cfg.SolverMs)
 				if err != nil {
 					fmt.Fprintln(os.Stderr, "cannot start solver:", err)
 					return
